@@ -46,6 +46,8 @@ type Tree struct {
 	Text []string `json:"text"`
 	K    string   `json:"k"`
 	Kids []*Tree  `json:"kids"`
+	// hidden sub-trees (barrier payload, secondary error), as far as this process can see them
+	Hid []*Tree `json:"hid"`
 }
 
 // Acc is the accessor part of the projection.
@@ -147,9 +149,13 @@ func TreeOf(e error) *Tree {
 		Text: tok.Lex(txt),
 		K:    k,
 		Kids: []*Tree{},
+		Hid:  []*Tree{},
 	}
 	for _, c := range kids {
 		t.Kids = append(t.Kids, TreeOf(c))
+	}
+	for _, h := range Hidden(e) {
+		t.Hid = append(t.Hid, TreeOf(h))
 	}
 	return t
 }
